@@ -329,6 +329,11 @@ def run_path(fsrc, contract, registry, decisions, path_id, case):
             ex.assume(_tobool(rfn(a)))
         if not ex.feasible(z3.BoolVal(True)):
             raise PathEnd()
+        # pre-state views of the input objects (a.old.<param>.<field>)
+        from .values import OldView
+        a.__dict__["old"] = NS({k: OldView(v, {f: (x.copy() if isinstance(x, (AList, ADict, ASet)) else x)
+                                                  for f, x in v._fields.items()})
+                                for k, v in args.items() if isinstance(v, SObj)})
         from .values import Env, SClosure
         clo = SClosure(fsrc.node, Env(None, {}), fsrc)
         names = [p.arg for p in fsrc.node.args.posonlyargs + fsrc.node.args.args]
